@@ -1041,6 +1041,11 @@ class Interp:
                 return all(f in other for f in obj[1].fields)
             raise OutsideSubset('issubset of %r' % (other,))
         if isinstance(obj, str) and name == 'format':
+            fh = getattr(U, 'format_hook', None)
+            if fh is not None:
+                r = fh(self, obj, args, kwargs, node)
+                if r is not None:
+                    return r
             return self.fresh('Str', 'fmt')          # the text of messages is not modelled
         if isinstance(obj, str):
             hook = getattr(U, 'method_hooks', {}).get(('Str', name))
